@@ -2,9 +2,13 @@
 
 package svc
 
+// the method set differs from the one of the same-named type in the other svc package: Do and Name sit at other
+// positions of the (sorted) method table
 type Service interface {
 	Name() string
 	Do(a int) int
+	Alpha() int
+	Echo(s string) string
 }
 
 var V Service
